@@ -13,7 +13,7 @@ func init() {
 }
 
 func checkC10(r *Run) {
-	r.Explain = "Does NOT decide the headline (no duplication, in-order delivery, behaviour under lapping: these quantify over interleavings of atomic operations). Decides the sequential preconditions every schedule relies on: A19 nothing reachable from diode.Writer.Write (VTA call graph, module functions) takes a lock, waits, sleeps, performs a channel operation or calls the wrapped writer — the producer cannot wait for the consumer or a slow writer; COPY the pointer published to the ring designates a local whose value is append(<pool buffer>, p...), never p itself, on every path that reaches Set (zerolog recycles p after Write returns); SINGLE exactly one go statement starts poll and Next/TryNext are reached only from it (deliveries happen one at a time); A13 the copy is returned to bufPool only after the wrapped Write returned and is not touched afterwards; A14 ring fields are accessed only through sync/atomic and readIndex only by the consumer; TAKE the consumer empties a slot with a single atomic SwapPointer(slot, nil) and takes every decision (empty, stale, lapped, regular) and the delivered data from the very bucket that exchange returned (no peek-then-swap window), and every attempt of Set starts from scratch: nothing read from a ring slot is carried across a retry (a remembered bucket from a lost attempt is not one this producer took out of the ring). TAKE claim-on-every-retry: every loop of Set passes through the fetch-add (no inner loop re-trying a position already held). SINGLE delivers-once: every iteration of the consumer loop hands the wrapped writer exactly the buffer it took from the ring, once."
+	r.Explain = "Does NOT decide the headline (no duplication, in-order delivery, behaviour under lapping: these quantify over interleavings of atomic operations). Decides the sequential preconditions every schedule relies on: A19 nothing reachable from diode.Writer.Write (VTA call graph, module functions) takes a lock, waits, sleeps, performs a channel operation or calls the wrapped writer — the producer cannot wait for the consumer or a slow writer; COPY the pointer published to the ring designates a local whose value is append(<pool buffer>, p...), never p itself, on every path that reaches Set (zerolog recycles p after Write returns); SINGLE exactly one go statement starts poll and Next/TryNext are reached only from it (deliveries happen one at a time); A13 the copy is returned to bufPool only after the wrapped Write returned and is not touched afterwards; A14 ring fields are accessed only through sync/atomic and readIndex only by the consumer; TAKE the consumer empties a slot with a single atomic SwapPointer(slot, nil) and takes every decision (empty, stale, lapped, regular) and the delivered data from the very bucket that exchange returned (no peek-then-swap window), and every attempt of Set starts from scratch: nothing read from a ring slot is carried across a retry (a remembered bucket from a lost attempt is not one this producer took out of the ring). TAKE claim-on-every-retry: every loop of Set passes through the fetch-add (no inner loop re-trying a position already held). SINGLE delivers-once: every iteration of the consumer loop hands the wrapped writer exactly the buffer it took from the ring, once. A19 producer entries: every exported method of diode.Writer other than Close is a producer entry; none reaches a lock, wait, channel operation or a read of the wrapped-writer field. A13 published-not-recycled: after Set no path of a producer entry returns a buffer to the pool."
 	r.NotDec = "Ordering, no-duplication, 'byte-identical to exactly one earlier Write', behaviour when producers lap the consumer, alert counts: schedule-quantified, not decided by this family (would need a verified model of the ring algorithm)."
 	r.Assume = []string{"log.Println on the collision arm may block on stderr; it does not involve the wrapped writer (observation, not a C10 violation as stated)"}
 	r.Trusted = []string{"x/tools callgraph/vta"}
@@ -280,7 +280,7 @@ func ruleConsumerPrivate(r *Run, p *Prog) {
 }
 
 func checkC11(r *Run) {
-	r.Explain = "Does NOT decide the schedule-quantified inequality delivered + reported >= written. Decides the structural conditions it rests on: DRAIN in both Poller.Next and Waiter.Next no path leads from the edge on which isDone() was true to the end-of-stream return without a failed TryNext in between (the ring is found empty after cancellation was observed), so Close delivers what is still in the ring, including a Write that completed just before it; CLOSE Writer.Close orders cancel → wait for poll → close the wrapped writer, done is closed only by poll's deferred close, poll ends only on a nil from Next; FATAL Logger.Fatal closes a closable writer before os.Exit, the writer wrappers forward Close and multiLevelWriter.Close reaches every child; A20 unsigned subtractions in the diode are dominated by an order check on the same operands, and A21 every claimed ring position is published (no iteration retries with a new position, and every return of Set follows a successful compare-and-swap at the position claimed last) — both report ManyToOne.Set (KNOWN-FINDINGs: first-lap underflow makes the newer-bucket test vacuous; a producer that loses its slot abandons the claimed position, leaving a hole at which the consumer stalls); ALERT the drop report reaches the user: TryNext fast-forwards readIndex only together with alerter.Alert(new − old) and every delivering path advances readIndex past the delivered message, NewManyToOne keeps the caller's alerter, AlertFunc.Alert forwards unconditionally, and diode.NewWriter hands the ring the user's Alerter (or a wrapper that calls it on every path). multiLevelWriter.Close's counter covers every index; the value TryNext finally increments is the current read index, not a copy taken before the fast-forward; no value read from a ring slot is carried across a retry of Set. ALERT idle-keeps-read-head: a TryNext path that delivers nothing does not write readIndex. FATAL keeps-every-writer: every writer handed to MultiLevelWriter is in the list Close walks."
+	r.Explain = "Does NOT decide the schedule-quantified inequality delivered + reported >= written. Decides the structural conditions it rests on: DRAIN in both Poller.Next and Waiter.Next no path leads from the edge on which isDone() was true to the end-of-stream return without a failed TryNext in between (the ring is found empty after cancellation was observed), so Close delivers what is still in the ring, including a Write that completed just before it; CLOSE Writer.Close orders cancel → wait for poll → close the wrapped writer, done is closed only by poll's deferred close, poll ends only on a nil from Next; FATAL Logger.Fatal closes a closable writer before os.Exit, the writer wrappers forward Close and multiLevelWriter.Close reaches every child; A20 unsigned subtractions in the diode are dominated by an order check on the same operands, and A21 every claimed ring position is published (no iteration retries with a new position, and every return of Set follows a successful compare-and-swap at the position claimed last) — both report ManyToOne.Set (KNOWN-FINDINGs: first-lap underflow makes the newer-bucket test vacuous; a producer that loses its slot abandons the claimed position, leaving a hole at which the consumer stalls); ALERT the drop report reaches the user: TryNext fast-forwards readIndex only together with alerter.Alert(new − old) and every delivering path advances readIndex past the delivered message, NewManyToOne keeps the caller's alerter, AlertFunc.Alert forwards unconditionally, and diode.NewWriter hands the ring the user's Alerter (or a wrapper that calls it on every path). multiLevelWriter.Close's counter covers every index; the value TryNext finally increments is the current read index, not a copy taken before the fast-forward; no value read from a ring slot is carried across a retry of Set. ALERT idle-keeps-read-head: a TryNext path that delivers nothing does not write readIndex. FATAL keeps-every-writer: every writer handed to MultiLevelWriter is in the list Close walks. ALERT fast-forward-lands-on-delivered: every store to readIndex before the final increment of a delivering path stores the delivered bucket's seq itself."
 	r.NotDec = "delivered + reported >= written over all interleavings; that no message is dropped while fewer than the ring size are outstanding: schedule-quantified."
 	r.Assume = []string{"the two known findings are genuine per the property's own confirmation on the real code; no small safe repair exists (vendored lock-free protocol)"}
 	p := r.Use("J")
@@ -305,7 +305,7 @@ func checkC11(r *Run) {
 }
 
 func checkC12(r *Run) {
-	r.Explain = "Decides the lost-wake-up condition and the wait structure: A15b every Broadcast on the Waiter's condition variable must be issued with the waiter's mutex held, because the waiter tests the ring and sleeps under that mutex while producers change the ring outside it — (*Waiter).Set broadcasts without the mutex (KNOWN-FINDING: the consumer can park in Wait with a message in the ring until something else is written); the cancel goroutine broadcasts under the mutex; Waiter.Next calls Wait under the mutex inside the loop that re-tests TryNext and does not release the mutex between the failed test and Wait; (*Waiter).Set signals after the Set that publishes, never before; POLL Poller.Next's loop re-tests TryNext in every iteration and its only wait is time.Sleep(p.interval); CLOSE Writer.Close waits only for poll's done channel, which poll's deferred close always closes. ALERT advances (shared with C11): every delivering path of TryNext moves the read index past the delivered message. REENTER (*Waiter).Next holds the waiter's mutex while TryNext runs the user's alerter, so nothing reachable from diode.Writer.Write may take that mutex (an alerter that logs to the same diode would block the consumer on itself). CLOSE consumer-started-on-every-path: every return of NewWriter comes after the go statement that starts poll. TAKE (shared with C10): the slot is emptied by one atomic exchange."
+	r.Explain = "Decides the lost-wake-up condition and the wait structure: A15b every Broadcast on the Waiter's condition variable must be issued with the waiter's mutex held, because the waiter tests the ring and sleeps under that mutex while producers change the ring outside it — (*Waiter).Set broadcasts without the mutex (KNOWN-FINDING: the consumer can park in Wait with a message in the ring until something else is written); the cancel goroutine broadcasts under the mutex; Waiter.Next calls Wait under the mutex inside the loop that re-tests TryNext and does not release the mutex between the failed test and Wait; (*Waiter).Set signals after the Set that publishes, never before; POLL Poller.Next's loop re-tests TryNext in every iteration and its only wait is time.Sleep(p.interval); CLOSE Writer.Close waits only for poll's done channel, which poll's deferred close always closes. ALERT advances (shared with C11): every delivering path of TryNext moves the read index past the delivered message. REENTER (*Waiter).Next holds the waiter's mutex while TryNext runs the user's alerter, so nothing reachable from diode.Writer.Write may take that mutex (an alerter that logs to the same diode would block the consumer on itself). CLOSE consumer-started-on-every-path: every return of NewWriter comes after the go statement that starts poll. TAKE (shared with C10): the slot is emptied by one atomic exchange. ALERT fast-forward-lands-on-delivered (shared with C11): the fast-forward puts the read head on the delivered bucket."
 	r.NotDec = "Liveness over all schedules beyond this necessary condition."
 	r.Assume = []string{"repairing Waiter.Set would make producers take the mutex the consumer holds while it runs the user's alerter: not a small safe repair (conflicts with C10's non-blocking producers)"}
 	p := r.Use("J")
